@@ -214,7 +214,8 @@ def observe(seed, tier):
                     gotext[parts[i]] = parts[i + 1]
         for p in pars:
             nend = sum(1 for it in p.items if it.get("end"))
-            got = len(re.findall(r"Dependencies:\s*(?:slice|map)Task\d+Jobs", gotext.get(p.name(), "")))
+            # a job whose Dependencies is a variable (the slice of element jobs), not a literal list - whatever its name
+            got = len(re.findall(r"Dependencies:\s*[A-Za-z_]\w*\s*[,}]", gotext.get(p.name(), "")))
             if got != nend:
                 hit("C10", "%s has %d End hooks; the generated code enqueues %d jobs depending on the element jobs of a collection" % (p.name(), nend, got),
                     {"go_function": p.name(), "source": p.render()})
@@ -243,8 +244,13 @@ def observe(seed, tier):
         runs = [json.loads(l) for l in out.split("\n") if l.strip()]
         if rc != 0 or len(runs) != len(plan):
             last = [l for l in err.split("\n") if l.startswith("RUN ")]
+            entry = plan[len(runs)] if len(runs) < len(plan) else None
             hit("C04", "the process running generated Parallel code died (exit %d) during %s" % (rc, last[-1] if last else "?"),
-                {"stderr_tail": err[-3000:], "plan_entry": plan[len(runs)] if len(runs) < len(plan) else None})
+                {"stderr_tail": err[-3000:], "plan_entry": entry})
+            if entry and (entry.get("precancel") or "cancel" in entry.get("scenario", {}).values()):
+                # a directive whose context is done returns the context's error; it does not take the process down
+                hit("C09", "a Parallel called with a cancelled context did not return: the process died (exit %d) during %s" % (rc, last[-1] if last else "?"),
+                    {"stderr_tail": err[-3000:], "plan_entry": entry})
         byname = {p.name(): p for p in pars}
         lines = []
         for run in runs:
